@@ -610,6 +610,7 @@ pub struct Cfg {
     pub prefix: Vec<Value>,
     pub pay_lag: bool,
     pub max_entries: usize,
+    pub stub_compare: bool,
 }
 
 pub fn dec_of(v: &Value) -> Decimal {
@@ -644,6 +645,7 @@ impl Cfg {
             prefix: v["Prefix"].as_array().cloned().unwrap_or_default(),
             pay_lag: v["PayLag"].as_bool().unwrap_or(false),
             max_entries: if v["MaxEntries"].as_bool().unwrap_or(false) { 7 } else { 0 },
+            stub_compare: v["StubCompare"].as_bool().unwrap_or(false),
         }
     }
     pub fn accts(&self) -> Vec<String> {
@@ -1022,6 +1024,39 @@ pub fn seed_legacy(c: &mut Chain, entries: &[(String, u64, u128)]) {
         let mut b: cosmwasm_storage::Bucket<Uint128> = cosmwasm_storage::Bucket::multilevel(st, &[b"wait", &addr]);
         b.save(&batch, &Uint128::new(*amt)).unwrap();
     }
+}
+
+/// C09 "exits do not depend on the reward plumbing", judged on the implementation itself: the transaction is executed on
+/// copies of the chain under every mode of the swap / oracle stubs; true when success, effects and resulting state agree
+/// (the stub settings themselves excepted).  Only for the transactions C09 names (spec/Props.tla ExitTx).
+pub fn is_exit_tx(tx: &Value) -> bool {
+    if tx["k"] != "exec" {
+        return false;
+    }
+    let c = tx["c"].as_str().unwrap_or("");
+    let k = tx["msg"]["k"].as_str().unwrap_or("");
+    c == "bsei" || c == "stsei" || (c == "hub" && ["bond", "bond_for_st_sei", "withdraw_unbonded", "check_slashing"].contains(&k)) || (c == "reward" && k == "claim_rewards")
+}
+pub fn stubs_same(c: &Chain, cfg: &Cfg, tx: &Value) -> bool {
+    let run = |swap: &str, oracle: &str| -> (bool, Vec<Value>, Value) {
+        let mut c1 = c.clone();
+        c1.swap_mode = swap.into();
+        c1.oracle_mode = oracle.into();
+        let o = apply(&mut c1, tx);
+        c1.swap_mode = c.swap_mode.clone();
+        c1.oracle_mode = c.oracle_mode.clone();
+        let st = std::panic::catch_unwind(std::panic::AssertUnwindSafe(|| project(&c1, cfg))).unwrap_or(Value::Null);
+        (o.ok, if o.ok { o.fx } else { vec![] }, if o.ok { st } else { Value::Null })
+    };
+    let base = run(&c.swap_mode.clone(), &c.oracle_mode.clone());
+    for swap in ["ok", "fail"] {
+        for oracle in ["ok", "fail", "zero"] {
+            if run(swap, oracle) != base {
+                return false;
+            }
+        }
+    }
+    true
 }
 
 // ------------------------------------------------------------------------------------------------
